@@ -405,6 +405,31 @@ func (c *fctx) assignSpecial(e *emitter, ind int, st *ast.AssignStmt) bool {
 				c.assignTo(e, ind, st.Lhs[1], t+".2.1", define)
 				return true
 			}
+			// bytes.Buffer (the unread bytes): n, err := b.Write(p)  /  n, err := b.WriteTo(dst)
+			if isBytesBuffer(recvT) && len(st.Lhs) == 2 {
+				switch sn.Obj().Name() {
+				case "Write":
+					t := c.tmp()
+					e.add(ind, fmt.Sprintf("let %s := %s", t, c.sliceOrNil(call.Args[0])))
+					c.assignTo(e, ind, sel.X, "("+c.expr(sel.X)+" ++ "+t+")", false)
+					c.assignTo(e, ind, st.Lhs[0], "(Go.len "+t+")", define)
+					c.assignTo(e, ind, st.Lhs[1], "(none : Option Go.Err)", define)
+					return true
+				case "WriteTo":
+					if dl, _ := leanTypeOf(c.typeOf(call.Args[0])); dl != "δ" {
+						c.fail(st, "bytes.Buffer.WriteTo something that is not an abstract destination")
+					}
+					c.useAbstractName("dst_Write", "(dst_Write : δ → (List UInt8) → Go.M (Int × (Option Go.Err) × δ))")
+					t := c.tmp()
+					e.add(ind, fmt.Sprintf("let %s ← Go.buffer_WriteTo dst_Write %s %s", t, c.expr(sel.X), c.expr(call.Args[0])))
+					c.assignTo(e, ind, sel.X, t+".2.2.1", false)
+					c.assignTo(e, ind, call.Args[0], t+".2.2.2", false)
+					c.assignTo(e, ind, st.Lhs[0], t+".1", define)
+					c.assignTo(e, ind, st.Lhs[1], t+".2.1", define)
+					return true
+				}
+				c.fail(st, "bytes.Buffer.%s", sn.Obj().Name())
+			}
 			// _, err := dst.Write(buf): an abstract, stateful destination
 			if lt == "δ" && sn.Obj().Name() == "Write" && len(st.Lhs) == 2 {
 				var data string
@@ -573,4 +598,12 @@ func (c *fctx) switchStmt(e *emitter, ind int, st *ast.SwitchStmt) {
 		emit(i+1, ind+1)
 	}
 	emit(0, ind)
+}
+
+func isBytesBuffer(t types.Type) bool {
+	if p, ok := t.(*types.Pointer); ok {
+		t = p.Elem()
+	}
+	nt, ok := t.(*types.Named)
+	return ok && nt.Obj().Pkg() != nil && nt.Obj().Pkg().Path() == "bytes" && nt.Obj().Name() == "Buffer"
 }
